@@ -130,9 +130,9 @@ func cmdCheck(args []string) int {
 	wd := workDir()
 	defer os.RemoveAll(wd)
 
-	opts := SolveOpts{Timeout: 10 * time.Second, Seed: seed, WorkDir: wd}
+	opts := SolveOpts{Timeout: 25 * time.Second, Seed: seed, WorkDir: wd}
 	if *tier == "thorough" {
-		opts.Timeout = 60 * time.Second
+		opts.Timeout = 90 * time.Second
 		opts.AllSolvers = true
 	}
 
